@@ -30,7 +30,7 @@ MANIFEST = {
     "note": ("Trusted: rustc front end; the shim traits of the harness (same shape as anstream::stream's, with the WinconStream "
              "bound the Windows build has). Not decided: contents of the runs (C07), the console API. Known finding: "
              "WinconStream::write reports the whole buffer consumed after a short console write (documented HACK, D10)."),
-    "technique": "static analysis via #[path]-mounted harness: match-table extraction, argument-wiring dataflow, loop-arm rules, structural path rule for the consumed count",
+    "technique": "static analysis via #[path]-mounted harness: match-table extraction, argument-wiring dataflow, write_all loop by case-split evaluation, result-position rule for write_vectored, structural path rule for the consumed count",
 }
 
 H = "verif_harness::wincon::"
